@@ -29,6 +29,8 @@ type SpecEnv struct {
 	// missingLocal is set when a clause names a local variable of the function that is not in scope in the
 	// state at hand (postconditions over locals are only checked at the returns where the local is live)
 	missingLocal *string
+	// localsOf: the function whose locals missingLocal refers to (nil: the function of env.fr)
+	localsOf *FuncInfo
 	// locals: inside old(...) the heap is the entry heap but local variables keep their current values
 	locals *State
 }
@@ -42,14 +44,18 @@ func (env *SpecEnv) fail(format string, args ...interface{}) *Val {
 
 // hasLocal: does the function under verification declare a local variable of that name?
 func (fr *Frame) hasLocal(name string) bool {
-	if fr.fi == nil || fr.fi.Pkg.TypesInfo == nil {
+	return fr.fi.hasLocal(name)
+}
+
+func (fi *FuncInfo) hasLocal(name string) bool {
+	if fi == nil || fi.Pkg.TypesInfo == nil {
 		return false
 	}
-	for id, o := range fr.fi.Pkg.TypesInfo.Defs {
+	for id, o := range fi.Pkg.TypesInfo.Defs {
 		if o == nil || id.Name != name {
 			continue
 		}
-		if v, ok := o.(*types.Var); ok && !v.IsField() && fr.fi.Decl.Body != nil && id.Pos() >= fr.fi.Decl.Body.Pos() && id.Pos() <= fr.fi.Decl.Body.End() {
+		if v, ok := o.(*types.Var); ok && !v.IsField() && fi.Decl.Body != nil && id.Pos() >= fi.Decl.Body.Pos() && id.Pos() <= fi.Decl.Body.End() {
 			return true
 		}
 	}
@@ -394,7 +400,11 @@ func (env *SpecEnv) evalGo(e ast.Expr) *Val {
 	case *ast.Ident:
 		v := env.lookupName(x.Name)
 		if v == nil {
-			if env.missingLocal != nil && env.fr != nil && env.fr.fi != nil && env.fr.hasLocal(x.Name) {
+			if env.missingLocal != nil && env.localsOf != nil && env.localsOf.hasLocal(x.Name) {
+				*env.missingLocal = x.Name
+				return &Val{T: intT, S: "0"}
+			}
+			if env.missingLocal != nil && env.localsOf == nil && env.fr != nil && env.fr.fi != nil && env.fr.hasLocal(x.Name) {
 				*env.missingLocal = x.Name
 				return &Val{T: intT, S: "0"}
 			}
